@@ -525,3 +525,104 @@ def stream_root(n):
     while s.k in CALL_KINDS and s.op is None and s.c and s.k == 'CXXMemberCallExpr':
         break
     return s
+
+
+# ------------------------------------------------------------------------------------------------
+# abstract evaluation: constant folding of an expression tree with some leaves bound to concrete numbers, in the
+# arithmetic of the C++ types involved (integer vs floating division, unsigned wrap-around).  No code is run.
+# ------------------------------------------------------------------------------------------------
+class Unknown(Exception):
+    pass
+
+
+def _coerce(v, t):
+    if t is None:
+        return v
+    if t.get('bool'):
+        return 1 if v else 0
+    if t.get('float'):
+        return float(v)
+    if t.get('int') or t.get('enum'):
+        v = int(v)
+        canon = t.get('canon', '')
+        if t.get('unsigned') or 'unsigned' in canon:
+            w = 64 if ('long' in canon or 'size_t' in canon) else (8 if 'char' in canon else (16 if 'short' in canon else 32))
+            return v % (1 << w)
+        return v
+    return v
+
+
+def ceval(n, bind, defs=None, depth=0):
+    """bind: callable(node) -> number or None for leaves it knows (variables, calls);  defs: var_id -> defining expression"""
+    if depth > 60:
+        raise Unknown('too deep')
+    s = n.strip()
+    b = bind(s)
+    if b is not None:
+        return _coerce(b, s.type)
+    k = s.k
+    if s.cv is not None and k not in CALL_KINDS:
+        return s.cv
+    if k == 'FloatingLiteral':
+        return float(s.value)
+    if k in ('ImplicitCastExpr', 'CStyleCastExpr', 'CXXStaticCastExpr', 'CXXFunctionalCastExpr', 'ParenExpr', 'MaterializeTemporaryExpr',
+             'ExprWithCleanups') and s.c:
+        return _coerce(ceval(s.c[0], bind, defs, depth + 1), s.type)
+    v = var_of(s)
+    if v is not None and defs is not None and v in defs:
+        return _coerce(ceval(defs[v], bind, defs, depth + 1), s.type)
+    if k == 'BinaryOperator' and len(s.c) == 2:
+        if s.op == '&&':
+            return 1 if (ceval(s.c[0], bind, defs, depth + 1) and ceval(s.c[1], bind, defs, depth + 1)) else 0
+        if s.op == '||':
+            return 1 if (ceval(s.c[0], bind, defs, depth + 1) or ceval(s.c[1], bind, defs, depth + 1)) else 0
+        a = ceval(s.c[0], bind, defs, depth + 1)
+        c = ceval(s.c[1], bind, defs, depth + 1)
+        op = s.op
+        t = s.type or {}
+        if op == '+':
+            r = a + c
+        elif op == '-':
+            r = a - c
+        elif op == '*':
+            r = a * c
+        elif op == '/':
+            if c == 0:
+                raise Unknown('division by zero')
+            if t.get('float'):
+                r = a / c
+            else:
+                r = abs(int(a)) // abs(int(c))
+                if (a < 0) != (c < 0):
+                    r = -r
+        elif op == '%':
+            if c == 0:
+                raise Unknown('mod by zero')
+            r = int(a) - int(c) * (abs(int(a)) // abs(int(c)) * (1 if (a < 0) == (c < 0) else -1))
+        elif op in ('<', '<=', '>', '>=', '==', '!='):
+            return int({'<': a < c, '<=': a <= c, '>': a > c, '>=': a >= c, '==': a == c, '!=': a != c}[op])
+        else:
+            raise Unknown('operator ' + op)
+        return _coerce(r, t)
+    if k == 'UnaryOperator' and s.c:
+        a = ceval(s.c[0], bind, defs, depth + 1)
+        if s.op == '-':
+            return _coerce(-a, s.type)
+        if s.op == '!':
+            return int(not a)
+        if s.op == '+':
+            return a
+        raise Unknown('unary ' + str(s.op))
+    if k == 'ConditionalOperator':
+        return ceval(s.then, bind, defs, depth + 1) if ceval(s.cond, bind, defs, depth + 1) else ceval(s.els, bind, defs, depth + 1)
+    if k == 'CallExpr' and s.callee:
+        name = s.callee['name']
+        a = s.args()
+        import math
+        if name in ('ceil', 'floor', 'round', 'trunc') and len(a) == 1:
+            x = ceval(a[0], bind, defs, depth + 1)
+            return float({'ceil': math.ceil, 'floor': math.floor, 'round': round, 'trunc': math.trunc}[name](x))
+        if name in ('min', 'max') and len(a) == 2:
+            x, y = ceval(a[0], bind, defs, depth + 1), ceval(a[1], bind, defs, depth + 1)
+            return min(x, y) if name == 'min' else max(x, y)
+    raise Unknown('%s `%s`' % (k, s.text(30)))
